@@ -177,6 +177,9 @@ def spec(c, r):
         if sv.get("same_as_compiled") and sv.get("min_weighted", 9) < 2:
             return ("robust mode degenerated: a solve of the Whittaker system ran with %d weighted cell(s) (singular system; %d solves observed in the "
                     "kernel's source run in the interpreter, whose band and lambda equal the compiled kernel's)" % (sv["min_weighted"], sv["n_solves"]))
+        if sv.get("same_as_compiled") and sv.get("max_median_cells", 0) > sum(valid):
+            return ("the robust scale is not derived from the residuals of valid cells only: %d residuals enter the median for %d valid cells"
+                    % (sv["max_median_cells"], sum(valid)))
         if all(o == 0 for o in vals) and any(abs(v) > 2 for v in data):
             return "robust result is all zeros on non-zero data (degenerate weights)"
         if c["degenerate"] and c["kind"] == "wcv" and sum(valid) == c["n"]:
